@@ -13,15 +13,21 @@ PROPS["C20"] = dict(
          "sizes around 4K, 32K, 64K / at most two files of about 1 MB; filter in {nil, path suffix, keep-only directory component, "
          "exclude directory component, reject all}; recursive flag; source dir spelled as a clean absolute path with or without ONE "
          "trailing slash; destination absent, empty, or pre-populated with regular files at the relative paths of source files - longer, "
-         "shorter, same length, empty, arbitrary - and with unrelated files; in a third of the cases 1..3 further rounds within the same process into the SAME destination path "
+         "shorter, same length (every byte inverted), COLLIDING (same length, same CRC-32 - the checksum a zip entry records - and, where the last 192 bytes leave room, same Adler-32, yet other bytes: "
+         "forged by Gaussian elimination over GF(2) on second-difference byte patterns (+1,-2,+1) or single-bit flips near the end; files of fewer than 5 bytes fall back to the inverted bytes), empty, arbitrary - and with unrelated files; in a third of the cases 1..3 further rounds within the same process into the SAME destination path "
          "string: before each, 0..3 removals under the destination (the whole directory, all its contents, one drawn sub-folder, one drawn file), then source files "
-         "shrunk/grown/emptied/rewritten/deleted or a new file added next to an existing one under a related name - or no edit at all (the same archive again) - then "
+         "shrunk/grown/emptied/rewritten/inverted byte by byte (same length)/replaced by a colliding content (same length, CRC-32 and where possible Adler-32 as the content the destination holds from the round before)/deleted or a new file added next to an existing one under a related name - or no edit at all (the same archive again) - then "
          "ZipFolder+UnzipToFolder again, compared with the model after every round). FAILED CALLS in the history: one case in six starts with, and one further round in three is "
          "preceded by, 1..2 calls that cannot succeed completely - ZipFolder of the source as it then is into {BASE}/missing/out.zip (no such directory), into a path that is a directory, or into "
          "a symlink to /dev/full (create and open succeed, every write fails; skipped and counted when the sandbox has no /dev/full; never /dev/full itself: every path handed to the library lies in the "
          "case's scratch directory, ZipFolder removes its destination on failure), or UnzipToFolder of a fresh archive of the source cut at / with 8 bytes inverted at a drawn position, into a private "
          "destination. Their outcome is not judged (nil accepted, only a panic is reported); the ordinary rounds after them are compared with the model as always - a round trip owes nothing to calls that failed before it. "
-         "HUGE FILES (unit huge, thorough tier only): a tree {a, m-big, z} whose m-big is a sparse file of 2^32-1, 2^32 or 2^32+4097 bytes (one per shard) with single non-zero bytes at 0, 2^31-1, 2^31, 2^32-2 .. 2^32+1, size/3, size-1, "
+         "MANY FILES UNDER A DESCRIPTOR LIMIT: a case may add 'many' small files m0000.dat.. (distinct contents, dealt round-robin to the source directory and its sub-directories) and name a descriptor room: "
+         "around the ZipFolder and UnzipToFolder calls of every ordinary round - and around nothing else; the check runs one case at a time and starts no goroutine - the soft RLIMIT_NOFILE of the test process is lowered with "
+         "syscall.Setrlimit to (highest descriptor in use + 1 + room) and put back right after the two calls, so that the library can open `room` more descriptors, fewer than the tree has files "
+         "(usual default soft limits are 256 and 1024; a tree is not limited by them). rapid: about one tree in 120 gets 120..500 such files and room 16/32/64/100, one in 200 only the limit; unit manyfiles: 300 flat files/room 32, "
+         "200 files in nested directories/room 16 over two rounds, 260 with a directory filter/room 100 (thorough adds 1200/room 250, 700 non-recursive with a suffix filter/room 64 after a removed sub-folder, 2100/room 1000). "
+         "Where the limit cannot be read or lowered the case runs without it (class tree_fd_limit_unavailable). HUGE FILES (unit huge, thorough tier only): a tree {a, m-big, z} whose m-big is a sparse file of 2^32-1, 2^32 or 2^32+4097 bytes (one per shard) with single non-zero bytes at 0, 2^31-1, 2^31, 2^32-2 .. 2^32+1, size/3, size-1, "
          "round-tripped and compared by size and content; needs the file's size in real scratch space for the extracted copy: the free space is looked at first and the case is skipped with an inconclusive note below size*9/8 + 4 GiB. Excluded as outside the documented domain: relative or unclean source paths, "
          "double slashes, symlinks, devices, unreadable files, the archive placed inside the source dir. "
          "archive case = list of zip entries (name, kind file/dir/symlink mode bits, payload, stored or deflated) written with archive/zip, "
@@ -29,7 +35,7 @@ PROPS["C20"] = dict(
          "absolute prefixes ('/', '//', the sandbox root, the destination itself), trailing slash, duplicates and file/dir clashes; the "
          "exhaustive unit runs every ordered list of length <= 2 (thorough: <= 3) over a systematic alphabet of 65 hostile entries. non-trivial = tree with >= 1 file in a sub-directory and >= 1 empty or filtered-out file, or an "
          "extraction over a longer file at the path of a selected one, or two selected sibling files one named like the other wrapped in a prefix and a suffix, or a later "
-         "round that must put a selected file into a folder removed from the destination in between, or archive with >= 1 entry "
+         "round that must put a selected file into a folder removed from the destination in between, or a selected file that goes over a destination file of equal length and CRC-32 but other content, or a tree with more selected files than descriptors available during the calls, or archive with >= 1 entry "
          "whose cleaned joined name leaves the destination; distinct = FNV hash of the JSON form of the case",
     assumptions=["oracle (a): map relPath->content of the regular files under the destination == the source's regular files for which "
                  "filter(clean source dir + '/' + relPath) is true (nil filter = all) and, when recursive is false, that sit directly in the "
@@ -51,6 +57,7 @@ PROPS["C20"] = dict(
                  "in the case (JSON: plain string if valid UTF-8, {hex: ...} otherwise)"],
     units=[
         dict(name="tree", run="^TestC20TreeRapid$", checks=(400, 1500), shards=(4, 16), timeout=(200, 1200), shrinktime=("15s", "40s")),
+        dict(name="manyfiles", run="^TestC20TreeManyFiles$", shards=(3, 6), timeout=(200, 1200)),
         dict(name="archive", run="^TestC20ArchiveRapid$", checks=(1500, 8000), shards=(4, 16), timeout=(200, 1200), shrinktime=("15s", "40s")),
         dict(name="hostile", run="^TestC20ArchiveExhaustive$", shards=(8, 16), timeout=(200, 1200)),
         dict(name="huge", run="^TestC20Huge$", shards=(1, 3), timeout=(600, 1200), enabled=(False, True)),
